@@ -3,7 +3,7 @@ import Model.TaskQueue
 import Std.Data.HashSet
 /-! Model driver of C15 (task queue).  Area `forced`: scripts of environment actions
 
-      reset | new <workers> <depth> <inCap> | sub <n|p>+ | rel <id>* | shut | relshut <id>* | obs | end
+      reset | new <workers> <depth> <inCap> [<handler mode 0..3>] | sub <n|p>+ | rel <id>* | shut | relshut <id>* | obs | end
 
   (anything after `##` on a line is a hint for the harness and is ignored here).  After each line the model runs its
   internal steps (dispatcher, workers taking and reporting, released tasks finishing, the sequential submitter's
@@ -112,12 +112,19 @@ def doShut (d : D) : D × String :=
 def step (d : D) (line : String) : D × String :=
   match stripHint (words line) with
   | ["reset"] => ({}, "reset")
-  | ["new", w, dp, ic] =>
-    match w.toNat?, dp.toInt?, ic.toNat? with
-    | some w, some dp, some ic =>
-      if w < 1 ∨ ic < 1 then (d, "bad-op")
-      else ({ cfg := { workers := w, depth := dp, inCap := ic }, live := true, nodes := [({}, [])], released := [] }, "ok")
-    | _, _, _ => (d, "bad-op")
+  | "new" :: w :: dp :: ic :: rest =>
+    -- optional handler mode: 0 recording handler (default), 1 no RecoveryHandler option, 2 RecoveryHandler(nil),
+    -- 3 handler that records and then panics; the model only distinguishes "handler installed" (0, 3) from "none" (1, 2)
+    let mode : Option Nat := match rest with
+      | [] => some 0
+      | [m] => m.toNat?
+      | _ => none
+    match w.toNat?, dp.toInt?, ic.toNat?, mode with
+    | some w, some dp, some ic, some m =>
+      if w < 1 ∨ ic < 1 ∨ m > 3 then (d, "bad-op")
+      else ({ cfg := { workers := w, depth := dp, inCap := ic, handler := (m == 0 || m == 3) }, live := true,
+              nodes := [({}, [])], released := [] }, "ok")
+    | _, _, _, _ => (d, "bad-op")
   | ["sub", flags] =>
     if !d.live then (d, "bad-op") else
     let fl := flags.toList
